@@ -36,7 +36,9 @@ ASSUMPTIONS = [
     "the statement is one-directional (same hash only if same call); keyword order, export-set order and `length` are "
     "shown not to matter (hash_ignores_kw_order_export_order_length) but are not demanded by the oracle",
 ]
-RULE = ("expression trees generated over the four classes (TaskExpression, SchedulerExpression, SimpleExpression, ValueExpression) "
+RULE = ("expression trees generated over the four classes (TaskExpression, SchedulerExpression, SimpleExpression, ValueExpression); more than "
+        "half of the task expressions name REGISTERED tasks (real @task objects incl. config_args on named, keyword-only and variadic "
+        "parameters, **kwargs, wraps_task), with variants that change / add / remove a config argument positionally and by keyword; "
         "with nested expression arguments, keyword arguments, option dicts (values incl. None, 0, "", [], {}, False and the look-alike families {0, 0.0, -0.0, False}, {1, 1.0, True}, {2, 2.0}, "
         "which also occur as argument, keyword and wrapped values; every ordered pair of look-alikes in every position is hashed in "
         "this process and in two fresh interpreters in forward/reverse order), export-option sets and lengths, built as real objects; "
@@ -61,6 +63,61 @@ LEVEL_NOTE = ("The model mirrors the code WITH the proposed repair(s) (harness/f
 TECHNIQUE = "Lean 4 proof on a hand-written model of the four _calc_hash and getstate/setstate + pre-image correspondence + pair oracle"
 
 NAMES = ["f", "ns.g", "redun.catch", "redun.cond", "h"]
+# REGISTERED tasks (real @task objects in the task registry, see register_tasks): name -> (positional parameter names,
+# name of *args or None, config_args).  The keyword names the generator uses (a, b, k, zz) hit their parameters and config args.
+REG = {
+    "verif_c18r.cfg_named": (["a", "b"], None, ["b", "zz"]),          # def cfg_named(a=None, b=2, *, k=None, zz=None)
+    "verif_c18r.cfg_mem": (["x", "memory"], None, ["memory"]),        # def cfg_mem(x=None, memory=1, **kw)
+    "verif_c18r.cfg_kwonly": ([], "rest", ["k"]),                      # def cfg_kwonly(*rest, k=1)
+    "verif_c18r.cfg_rest": (["a"], "rest", ["rest"]),                  # def cfg_rest(a=None, *rest, b=None)
+    "verif_c18r.plain": (["a", "b"], "rest", []),                      # def plain(a=None, b=2, *rest, k=None, **kw)
+    "verif_c18r.wrapped": (["a", "b"], None, ["b"]),                   # wraps_task around def wrapped(a=None, b=2, k=None)
+}
+
+
+def register_tasks():
+    """real tasks in redun's task registry, so that expression hashing that consults the registry is exercised"""
+    from redun import task
+    from redun.task import wraps_task
+
+    @task(name="cfg_named", namespace="verif_c18r", version="1", config_args=["b", "zz"])
+    def cfg_named(a=None, b=2, *, k=None, zz=None):
+        return [a, b, k, zz]
+
+    @task(name="cfg_mem", namespace="verif_c18r", version="1", config_args=["memory"])
+    def cfg_mem(x=None, memory=1, **kw):
+        return [x, memory, kw]
+
+    @task(name="cfg_kwonly", namespace="verif_c18r", version="1", config_args=["k"])
+    def cfg_kwonly(*rest, k=1):
+        return [rest, k]
+
+    @task(name="cfg_rest", namespace="verif_c18r", version="1", config_args=["rest"])
+    def cfg_rest(a=None, *rest, b=None):
+        return [a, rest, b]
+
+    @task(name="plain", namespace="verif_c18r", version="1")
+    def plain(a=None, b=2, *rest, k=None, **kw):
+        return [a, b, rest, k, kw]
+
+    @wraps_task(wrapper_name="_c18w", config_args=["b"])
+    def _c18w(inner_task):
+        def do_wrapped(*task_args, factor=1, **task_kwargs):
+            return [factor, inner_task.func(*task_args, **task_kwargs)]
+
+        return do_wrapped
+
+    @task(name="wrapped", namespace="verif_c18r", version="1")
+    def wrapped(a=None, b=2, k=None):
+        return [a, b, k]
+
+    w = _c18w(wrapped)
+    from redun.task import get_task_registry
+    reg = get_task_registry()
+    for name in REG:
+        t = reg.get(name)
+        assert t is not None and list(t.get_task_option("config_args", [])) == REG[name][2], "harness: task %s not registered as described" % name
+    return w
 FUNCS = ["add", "getitem", "mul", "getattr", "eq", "ne", "and", "or", "sub", "radd"]
 OPTKEYS = ["cache_scope", "memory", "executor", "prov"]
 # option values: a label is the int itself, except these labels which stand for None and the other falsy values
@@ -159,7 +216,9 @@ def gen_node(rng, depth, top=False):
                  for key in rng.sample(OPTKEYS, rng.choice([0, 0, 1, 2])))
     ex = tuple(rng.sample(OPTKEYS, rng.choice([0, 0, 0, 1, 2])))
     length = rng.choice([None, None, 2, 3])
-    return ("task" if k < 0.82 else "sched", rng.choice(NAMES), args, kw, opts, ex, length)
+    kind = "task" if k < 0.82 else "sched"
+    name = rng.choice(sorted(REG)) if (kind == "task" and rng.random() < 0.55) else rng.choice(NAMES)
+    return (kind, name, args, kw, opts, ex, length)
 
 
 def sx_node(n):
@@ -345,6 +404,36 @@ def arg_variants(rng, args, kw):
         yield "keyword-values-swapped", args, tuple(k2)
 
 
+def config_arg_variants(rng, name, args, kw):
+    """the value of a declared config argument changed / added / removed, positionally and by keyword: the eval key may
+    ignore it, the expression still denotes another call"""
+    pos, var, cfg = REG[name]
+    kwd = dict(kw)
+    for c in cfg:
+        if c in pos:
+            i = pos.index(c)
+            if i < len(args):
+                yield "config-arg-value-positional", args[:i] + (("lit", 780),) + args[i + 1:], kw
+                if i == len(args) - 1:
+                    yield "config-arg-removed-positional", args[:i], kw
+            elif i == len(args) and c not in kwd:
+                yield "config-arg-added-positional", args + (("lit", 781),), kw
+        if c == var:
+            n = len(pos)
+            if len(args) > n:
+                yield "config-arg-value-variadic", args[:n] + (("lit", 782),) + args[n + 1:], kw
+                yield "config-arg-removed-variadic", args[:-1], kw
+            if len(args) >= n:
+                yield "config-arg-added-variadic", args + (("lit", 783),), kw
+            continue
+        if c in kwd:
+            j = [k for k, _ in kw].index(c)
+            yield "config-arg-value-keyword", args, kw[:j] + ((c, ("lit", 784)),) + kw[j + 1:]
+            yield "config-arg-removed-keyword", args, kw[:j] + kw[j + 1:]
+        elif c not in pos or pos.index(c) >= len(args):
+            yield "config-arg-added-keyword", args, kw + ((c, ("lit", 785)),)
+
+
 def variants(rng, n):
     """single-component changes: (what, node2); each denotes a different call, so all must get a different hash"""
     if n[0] == "value":
@@ -364,6 +453,9 @@ def variants(rng, n):
     yield "kind", ("sched" if kind == "task" else "task", name, args, kw, opts, ex, length)
     for what, a2, k2 in arg_variants(rng, args, kw):
         yield what, (kind, name, a2, k2, opts, ex, length)
+    if name in REG:
+        for what, a2, k2 in config_arg_variants(rng, name, args, kw):
+            yield what, (kind, name, a2, k2, opts, ex, length)
     yield "options-added", (kind, name, args, kw, opts + (("zopt", 3),), ex, length)
     # a call-time option with a None / falsy value is not a no-op: it has top precedence and masks definition-time values
     free = [k for k in ("executor", "memory", "zfalsy") if k not in dict(opts)]
@@ -386,6 +478,7 @@ def variants(rng, n):
 
 def run(ctx):
     rng = ctx.rng
+    register_tasks()
     log = HashLog()
     real = Real(log)
     E = real.E
@@ -408,7 +501,7 @@ def run(ctx):
     for lab in sorted(FALSY):
         corpus.append(("task", "f", (("lit", 1),), (), (("executor", lab),), (), None))
         corpus.append(("sched", "redun.catch", (("lit", 1),), (), (("cache_scope", lab), ("memory", 2)), (), None))
-    nodes = corpus + [gen_node(rng, rng.choice([1, 2, 2, 3]), top=True) for _ in range(ctx.n(400, 25000))]
+    nodes = corpus + [gen_node(rng, rng.choice([1, 2, 2, 3]), top=True) for _ in range(ctx.n(300, 25000))]
     reqs, plan = [], []
     with log:
         for n in nodes:
@@ -448,7 +541,7 @@ def run(ctx):
             plan.append((n, h, pairs, rt, rt_hash, (ch, ups, cached)))
         impl_pre = [log.render(p[1]) for p in plan]
         legacy = legacy_states(ctx, rng, real)
-        la_nodes = lookalike_pairs(ctx, real) + container_pairs(ctx, real)
+        la_nodes = lookalike_pairs(ctx, real) + container_pairs(ctx, real) + registered_task_pairs(ctx, real)
     out = ctx.model("C18", reqs + [r for r, _, _ in legacy])
 
     old_tree = 0
@@ -540,6 +633,45 @@ def lookalike_pairs(ctx, real):
     return nodes
 
 
+def registered_task_pairs(ctx, real):
+    """calls of REGISTERED tasks that differ only in a config argument (value / presence / positional vs keyword) or only in
+    another argument: pairwise different calls => pairwise different expression hashes"""
+    t = lambda name, args=(), kw=(): ("task", name, tuple(("lit", a) for a in args), tuple((k, ("lit", v)) for k, v in kw), (), (), None)
+    groups = [
+        ("cfg_mem", [t("verif_c18r.cfg_mem", (5,), (("memory", 1),)), t("verif_c18r.cfg_mem", (5,), (("memory", 16),)),
+                     t("verif_c18r.cfg_mem", (5, 32)), t("verif_c18r.cfg_mem", (5,)), t("verif_c18r.cfg_mem", (5, 1)),
+                     t("verif_c18r.cfg_mem", (6,), (("memory", 1),)), t("verif_c18r.cfg_mem", (5,), (("zz", 1),))]),
+        ("cfg_named", [t("verif_c18r.cfg_named", (5,)), t("verif_c18r.cfg_named", (5, 7)), t("verif_c18r.cfg_named", (5, 8)),
+                       t("verif_c18r.cfg_named", (5,), (("b", 7),)), t("verif_c18r.cfg_named", (5,), (("zz", 7),)),
+                       t("verif_c18r.cfg_named", (5,), (("zz", 8),)), t("verif_c18r.cfg_named", (5,), (("k", 7),))]),
+        ("cfg_kwonly", [t("verif_c18r.cfg_kwonly", (5, 6)), t("verif_c18r.cfg_kwonly", (5, 6), (("k", 1),)),
+                        t("verif_c18r.cfg_kwonly", (5, 6), (("k", 2),)), t("verif_c18r.cfg_kwonly", (5, 7))]),
+        ("cfg_rest", [t("verif_c18r.cfg_rest", (5,)), t("verif_c18r.cfg_rest", (5, 6)), t("verif_c18r.cfg_rest", (5, 7)),
+                      t("verif_c18r.cfg_rest", (5, 6, 7)), t("verif_c18r.cfg_rest", (5,), (("b", 6),))]),
+        ("wrapped", [t("verif_c18r.wrapped", (5,)), t("verif_c18r.wrapped", (5, 7)), t("verif_c18r.wrapped", (5,), (("b", 7),)),
+                     t("verif_c18r.wrapped", (5,), (("b", 8),)), t("verif_c18r.wrapped", (5,), (("factor", 2),)),
+                     t("verif_c18r.wrapped", (5,), (("factor", 3),))]),
+        ("plain", [t("verif_c18r.plain", (5,)), t("verif_c18r.plain", (5, 7)), t("verif_c18r.plain", (5,), (("b", 7),)),
+                   t("verif_c18r.plain", (5,), (("k", 7),))]),
+    ]
+    nodes = []
+    for gname, group in groups:
+        nodes += group
+        built = [(n, real.build(n)) for n in group]
+        hashes = [e.get_hash() for _, e in built]
+        for i in range(len(group)):
+            for j in range(i + 1, len(group)):
+                ctx.case(key=("registered", gname, i, j), part="registered-task-pairs", task=gname)
+                if hashes[i] == hashes[j]:
+                    ctx.violation("C18-same-hash-different-call-config-arg-registered-" + gname,
+                                  "two calls of the registered task %s with different arguments (a config argument's value, presence or "
+                                  "position, or another argument) have the same expression hash" % gname,
+                                  case={"a": repr(built[i][1]), "b": repr(built[j][1]), "node_a": group[i], "node_b": group[j],
+                                        "config_args": REG["verif_c18r." + gname][2]},
+                                  expected="different hashes", actual="equal")
+    return nodes
+
+
 def container_shapes(a, b):
     """the same two lazy expressions in different containers / nestings"""
     return [("list", ("cont", "list", (a, b))), ("tuple", ("cont", "tuple", (a, b))), ("namedtuple", ("cont", "namedtuple", (a, b))),
@@ -564,9 +696,7 @@ def container_pairs(ctx, real):
         for sa, ca in shapes:
             na = host(ca)
             nodes.append(na)
-            for sb, cb in shapes:
-                if sa == sb:
-                    continue
+            for sb, cb in shapes[[x for x, _ in shapes].index(sa) + 1:]:
                 nb = host(cb)
                 ea, eb = real.build(na), real.build(nb)
                 ha = ea.get_hash()
@@ -592,6 +722,7 @@ def worker():
     """fresh process: read a JSON list of nodes, build and hash them in that order, print the hashes"""
     import json
     import sys
+    register_tasks()
     real = Real(HashLog())
     nodes = [_tuplify(n) for n in json.load(sys.stdin)]
     print(json.dumps([real.build(n).get_hash() for n in nodes]))
@@ -695,6 +826,28 @@ def merged_under_one_parent(ctx):
                                 "program": "[a op b, b op a, pair(a, b), pair(b, a), pair(a, a, k=b), pair(a, a, k=a)] with a=ident(%r), b=ident(%r)" % (va, vb)},
                           expected=repr(expect), actual=repr(got), kind="input")
 
+    # calls of a registered task that differ only in a config argument: the eval key ignores it, the expression must not
+    @task(name="c18_submit", namespace="verif_c18", version="1", config_args=["memory"], cache_scope="NONE")
+    def c18_submit(sample, memory=1):
+        return "s%s:mem=%s" % (sample, memory)
+
+    @task(name="c18_cfg_main", namespace="verif_c18", version="1")
+    def c18_cfg_main():
+        return [c18_submit(1, memory=1), c18_submit(1, memory=16), c18_submit(1, 32)]
+
+    expect = ["s1:mem=1", "s1:mem=16", "s1:mem=32"]
+    try:
+        got = Scheduler().run(c18_cfg_main())
+    except Exception as e:      # noqa: BLE001
+        got = "!" + type(e).__name__
+    ctx.case(key=("one-parent", "config-args"), part="merged-under-one-parent", scenario="config-args")
+    if got != expect:
+        ctx.violation("C18-same-hash-different-call-merged-config-args",
+                      "calls of a task (config_args=['memory'], cache_scope='NONE') that differ in the config argument, evaluated under one "
+                      "parent job, were merged: the result differs from plain Python evaluation",
+                      case={"scenario": "config-args", "program": "[submit(1, memory=1), submit(1, memory=16), submit(1, 32)]"},
+                      expected=repr(expect), actual=repr(got), kind="input")
+
     # the same lazy expressions passed in a list, a tuple, a namedtuple, nested, as dict values: different arguments
     @task(name="c18_show", namespace="verif_c18", version="1")
     def c18_show(xs=None, k=None):
@@ -786,6 +939,7 @@ def replay(ctx, case):
         print("replay: no single pair recorded (correspondence/proof break or a round-trip case); running the whole check")
         return run(ctx)
     a, b = _tuplify(c["node_a"]), _tuplify(c["node_b"])
+    register_tasks()
     log = HashLog()
     real = Real(log)
     with log:
